@@ -120,7 +120,11 @@ def specs():
     add(a + "surface_position_with_ref", adsb.surface_position_with_ref, tup(num, num), None, ref)
     pair = lambda m, o, r: (m, o, 1, 2)  # noqa
     pairref = lambda m, o, r: (m, o, r.choice((1, 3)), 2, r.uniform(-80, 80), r.uniform(-180, 180))  # noqa
-    add(a + "position", adsb.position, latlon, tcin(*POS), pairref)
+    # position(): lat_ref / lon_ref are documented None | float - any combination of given / omitted halves is a legal call
+    posref = lambda m, o, r: (m, o, r.choice((1, 3)), 2) + r.choice((  # noqa
+        (r.uniform(-80, 80), r.uniform(-180, 180)), (r.uniform(-80, 80), r.uniform(-180, 180)), (r.uniform(-80, 80),),
+        (None, r.uniform(-180, 180)), (r.uniform(-80, 80), None), ()))
+    add(a + "position", adsb.position, latlon, tcin(*POS), posref)
     add(a + "airborne_position", adsb.airborne_position, latlon, None, pair)
     add(a + "surface_position", adsb.surface_position, latlon, None, pairref)
     for nm in commb.__all__:
@@ -312,11 +316,11 @@ def cases(ctx):
                 fr = []
                 for st in range(8):
                     head = (tc << 51) | (st << 48)
-                    pay = [0, (1 << 48) - 1] + [rng.getrandbits(48) for _ in range(nrand)]
+                    pay = [0, (1 << 48) - 1] + [rng.fill(48) for _ in range(nrand)]
                     # reserved / boundary codes: each 10-bit / 3-bit group saturated
-                    pay += [rng.getrandbits(48) | 0xFFC000000000, rng.getrandbits(48) & 0x0000FFFFFFFF]
+                    pay += [rng.fill(48) | 0xFFC000000000, rng.fill(48) & 0x0000FFFFFFFF]
                     for p in pay:
-                        fr.append("%028X" % bits.es_frame(df, rng.randrange(8), rng.getrandbits(24), head | p))
+                        fr.append("%028X" % bits.es_frame(df, rng.randrange(8), rng.fill(24), head | p))
                     fr.append(fr[-1].lower())
                 yield "frames", {"frames": fr}
             i += 1
@@ -326,7 +330,7 @@ def cases(ctx):
             fr = []
             for tc in range(32):
                 for st in range(8):
-                    fr.append("%014X" % ((df << 51) | (rng.getrandbits(27) << 24) | (tc << 19) | (st << 16) | rng.getrandbits(16)))
+                    fr.append("%014X" % ((df << 51) | (rng.fill(27) << 24) | (tc << 19) | (st << 16) | rng.fill(16)))
             yield "frames", {"frames": fr}
         i += 1
     # other DFs, long and short
@@ -335,20 +339,20 @@ def cases(ctx):
             if ctx.mine(i):
                 fr = []
                 w = n - 29
-                for body in [0, (1 << w) - 1] + [rng.getrandbits(w) for _ in range(6 if quick else 40)]:
-                    fr.append("%0*X" % (n // 4, bits.with_pi((df << w) | body, n, rng.getrandbits(24))))
+                for body in [0, (1 << w) - 1] + [rng.fill(w) for _ in range(6 if quick else 40)]:
+                    fr.append("%0*X" % (n // 4, bits.with_pi((df << w) | body, n, rng.fill(24))))
                     fr.append("%0*X" % (n // 4, (df << (n - 5)) | (body << 24 >> 0) & ((1 << (n - 5)) - 1)))  # no valid parity
                 fr.append("0" * (n // 4 - 1) + "0")
                 fr.append("F" * (n // 4))
-                fr.append(("%0*X" % (n // 4, bits.with_pi((df << w) | rng.getrandbits(w), n, 5))).lower())
+                fr.append(("%0*X" % (n // 4, bits.with_pi((df << w) | rng.fill(w), n, 5))).lower())
                 yield "frames", {"frames": fr}
             i += 1
     # Comm-B with sparse payloads (satisfy several register formats -> tell branches)
     for k in range(ctx.share(120 if quick else 3000)):
         fr = []
         for _ in range(40):
-            mb = rng.getrandbits(56) & rng.getrandbits(56) & rng.getrandbits(56)
-            fr.append("%028X" % bits.commb_frame(rng.choice((20, 21)), rng.getrandbits(27), mb, rng.getrandbits(24)))
+            mb = rng.fill(56) & rng.fill(56) & rng.fill(56)
+            fr.append("%028X" % bits.commb_frame(rng.choice((20, 21)), rng.fill(27), mb, rng.fill(24)))
         yield "frames", {"frames": fr}
     # valid register contents so that tell() reaches every BDS branch
     from . import C12
